@@ -577,7 +577,7 @@ def _writers(ix, cls_mod, cls_name, attrs):
 def rule_group_members(ck, ix):
     ci = ix.cls(GO, "Group")
     ws = [w for w in _writers(ix, GO, "Group", ["_unit_names", "_used_groups"]) if w[1].startswith("self.")]
-    ck.floor("G-MEMO-INV", len({w[0].name for w in ws}), 4, "Group methods writing _unit_names/_used_groups")
+    ck.floor("G-MEMO-INV", len({w[0].name for w in ws}), 2, "Group methods writing _unit_names/_used_groups")
     for (m, p, kind, node) in ws:
         ck.analysed(m)
         cfg = cfg_of(m)
@@ -793,7 +793,7 @@ def rule_unit_dimensionality_memo(ck, ix):
                 n += 1
                 ck.check(f.name == "__init__", "G-MEMO-INV", f"memo=Unit:_dimensionality|dep=Unit:_units|writer={f.cls.name}.{f.name}", f.loc(node),
                          "Unit._units only assigned during construction", f"{f.qualname} rebinds self._units of a Unit after construction while its dimensionality memo is never invalidated")
-    ck.floor("G-MEMO-INV", n, 3, "assignments of PlainUnit._units in __init__")
+    ck.floor("G-MEMO-INV", n, 1, "assignments of PlainUnit._units in __init__")
     # nobody else assigns <x>._units on objects that may be Units
     for f in ix.all_functions():
         for (p, kind, node) in writes_in(f.node):
@@ -816,7 +816,7 @@ def rule_lru_purity(ck, ix):
         decos = [norm(d) for d in f.node.decorator_list]
         if any("lru_cache" in d or d in ("cache", "functools.cache") or "cached_property" in d for d in decos):
             found.append((f, decos))
-    ck.floor("G-MEMO-INV", len(found), 6, "lru_cache/cached_property functions in pint")
+    ck.floor("G-MEMO-INV", len(found), 3, "lru_cache/cached_property functions in pint")
     for f, decos in found:
         ck.analysed(f)
         reads_tables = set()
@@ -901,7 +901,7 @@ def rule_shared_mutable_state(ck, ix):
                 ck.check(ok, "G-OWN", f"process-wide|{m.name}.{nm}|writer={top.name}", w.loc(node),
                          f"confirmed writer of process-wide table {nm}",
                          f"{w.qualname} writes the process-wide table {m.name}.{nm} (shared by all registries) and is not a confirmed writer")
-    ck.floor("G-OWN", n, 3, "writers of module-level mutable tables")
+    ck.floor("G-OWN", n, 1, "writers of module-level mutable tables")
     # class-level mutable attributes written through instances/classes
     fmt = ix.cls("pint.delegates.formatter.full", "FullFormatter")
     init = fmt.methods.get("__init__")
